@@ -568,3 +568,26 @@ def without_known_space(eps):
         if b and b.get("logic") == "noshards" and 100000 < b.get("n", 0) < 737700:
             e["ops"] = [o for o in e["ops"] if o.get("op") != "mem_size"]
     return eps
+
+
+def known_hang(b):
+    """F-mwhc-tiny-loop: with a segment of one cell every edge of an MWHC graph is
+    the same edge (2 keys), and Mwhc3NoShards derives the third vertex from the
+    XOR of the two signature words, which for a power-of-two segment size is
+    the XOR of the first two vertices: 4 keys can never be peeled, 9 keys
+    practically never. These builds loop forever."""
+    return (b.get("logic") == "mwhcnoshards" and b.get("n") in (2, 4, 9)) or \
+           (b.get("logic") == "mwhc" and b.get("n") == 2)
+
+
+def without_known_hangs(eps):
+    """Every hang costs its whole watchdog budget: the input class of the known
+    finding is exercised by `mwhc_tiny` only (thorough tier)."""
+    return [e for e in eps if not any(o.get("op") == "build" and known_hang(o) for o in e["ops"])]
+
+
+def mwhc_tiny():
+    out = []
+    for logic, n in (("mwhcnoshards", 2), ("mwhc", 2), ("mwhcnoshards", 4)):
+        out.append(episode([build(n, (logic, 2, "func", "bfv", "usize")), {"op": "len"}], src="known", budget_ms=8000))
+    return out
